@@ -174,9 +174,11 @@ def regenerate(repo, out_path):
             "namespace MJ.Gen\n\n" + "\n".join(chunks) + "\nend MJ.Gen\n")
     os.makedirs(os.path.dirname(out_path), exist_ok=True)
     old = open(out_path).read() if os.path.exists(out_path) else None
-    if old != text:
-        with open(out_path, "w") as fh:
+    if old != text:   # atomic replace: a concurrently running `lake build` never sees a half-written file
+        tmp = out_path + ".tmp.%d" % os.getpid()
+        with open(tmp, "w") as fh:
             fh.write(text)
+        os.replace(tmp, out_path)
     status = {"items": items, "missing": missing}
     with open(os.path.join(os.path.dirname(out_path), "tables_status.json"), "w") as fh:
         json.dump(status, fh, indent=1, default=str)
